@@ -142,8 +142,13 @@ def search(seed=0, trials=40, tol=1e-9):
             mo = MeshOperators(mesh, None, fixed_sites=fixed, fix_psi=fix_psi)
             seq = []
             for c in range(int(rng.integers(1, 6))):
-                kind = rng.choice(["rand", "zero", "repeat", "small"])
-                if kind == "zero":
+                kind = rng.choice(["rand", "zero", "repeat", "small", "partial", "partial"])
+                if kind == "partial" and seq:
+                    # the potential changes on SOME edges only (a localised source switched on, a vortex far away): a random subset, a contiguous block
+                    Ac = seq[-1].copy()
+                    sel = (rng.random(E) < 0.3) if rng.random() < 0.5 else (np.arange(E) < int(rng.integers(1, E)))
+                    Ac[sel] += rng.normal(size=(int(sel.sum()), 2)) / scale
+                elif kind == "zero":
                     Ac = np.zeros((E, 2))
                 elif kind == "repeat" and seq:
                     Ac = seq[-1].copy()
